@@ -76,8 +76,9 @@ CHECKS = {
         "clauses: jitter distributions (absolute width, centred on 0, clipped to the parameter's limits) adopted from the C02 contracts, "
         "orientation inactive for 1-D under C10; kernel-level |cos dtheta| weight, jitter defaults 0, view angles from the value "
         "vector: kernel contract (cylinder Iq/Iqxy, parallelepiped Iqxy); I(-q) = I(q): the particle-frame function of each of the 21 "
-        "oriented models is proved even under q -> -q (polynomial identity with the parity of the special functions given: 17 models; "
-        "the 4 with an inner quadrature in the 2-D function have a bounded numeric check, not counted)",
+        "oriented models is proved even under q -> -q (polynomial identity with the parity of the special functions given: 20 models, "
+        "three of them through a parity lemma for their inner-quadrature helper proved on the helper's summand; stacked_disks has a "
+        "bounded numeric check, not counted)",
    technique=TECH + "clang JSON AST -> symbolic execution -> polynomial normal form / z3; witnesses replayed on the compiled generated source",
    design="DESIGN.md 6 C05"),
  "C06": dict(engine="cvc",
